@@ -19,6 +19,7 @@ mod c16;
 mod cluster;
 mod c17;
 mod c18;
+mod c19;
 mod c20;
 mod transports;
 mod selftest;
@@ -67,6 +68,7 @@ fn run(args: &[String], tier: &str) -> i32 {
         "C17" => c17::run(tier),
         "C18" => c18::run(tier),
         "c18-child" => c18::child(args),
+        "C19" => c19::run(tier),
         "C20" => c20::run(tier),
         "load-probe" => c06::load_probe_child(&args[3]),
         other => {
